@@ -162,6 +162,10 @@ func (x *Exec) solveAll(cfg solveCfg) {
 	}
 	sem := make(chan struct{}, cfg.jobs)
 	var wg sync.WaitGroup
+	// once two path queries of an obligation are undecided after the full first phase, its remaining
+	// path queries are deferred to the idle phase (which stops at the first final failure)
+	var umu sync.Mutex
+	undecided := map[*siteInfo]int{}
 	for _, j := range jobs {
 		wg.Add(1)
 		sem <- struct{}{}
@@ -169,6 +173,31 @@ func (x *Exec) solveAll(cfg solveCfg) {
 			defer wg.Done()
 			defer func() { <-sem }()
 			os.WriteFile(j.file, []byte(j.text), 0o644)
+			if !j.obls[0].Cover && j.obls[0].MaxSec == 0 {
+				umu.Lock()
+				deferIt := true
+				for _, o := range j.obls {
+					if undecided[x.oblSite[o]] < 2 {
+						deferIt = false
+					}
+				}
+				umu.Unlock()
+				if deferIt {
+					for _, o := range j.obls {
+						o.Result, o.Solver, o.File = "deferred", "deferred to the idle phase", j.file
+					}
+					return
+				}
+				defer func() {
+					if r := j.obls[0].Result; r != "unsat" {
+						umu.Lock()
+						for _, o := range j.obls {
+							undecided[x.oblSite[o]]++
+						}
+						umu.Unlock()
+					}
+				}()
+			}
 			jcfg := cfg
 			if j.obls[0].MaxSec > 0 {
 				jcfg.fullSecs = j.obls[0].MaxSec
@@ -199,6 +228,28 @@ func (x *Exec) solveAll(cfg solveCfg) {
 		retry = append(retry, j)
 	}
 	if len(retry) > 0 {
+		// an obligation is reported as failed as soon as one of its path queries fails for good:
+		// the remaining undecided path queries of the same obligation are not retried (they cannot
+		// change the verdict), which bounds the time a failing check takes
+		var fmu sync.Mutex
+		failedSite := map[*siteInfo]bool{}
+		for _, j := range jobs {
+			for _, o := range j.obls {
+				if o.Result == "sat" && !o.Cover {
+					failedSite[x.oblSite[o]] = true // a counterexample was already found for this obligation
+				}
+			}
+		}
+		siteDone := func(j *job) bool {
+			fmu.Lock()
+			defer fmu.Unlock()
+			for _, o := range j.obls {
+				if !failedSite[x.oblSite[o]] {
+					return false
+				}
+			}
+			return true
+		}
 		sem2 := make(chan struct{}, 3)
 		var wg2 sync.WaitGroup
 		for _, j := range retry {
@@ -207,6 +258,21 @@ func (x *Exec) solveAll(cfg solveCfg) {
 			go func(j *job) {
 				defer wg2.Done()
 				defer func() { <-sem2 }()
+				if siteDone(j) {
+					for _, o := range j.obls {
+						o.Solver += "; not retried: another path query of this obligation already failed"
+					}
+					return
+				}
+				defer func() {
+					if r := j.obls[0].Result; r != "unsat" {
+						fmu.Lock()
+						for _, o := range j.obls {
+							failedSite[x.oblSite[o]] = true
+						}
+						fmu.Unlock()
+					}
+				}()
 				jcfg := cfg
 				jcfg.fullSecs = cfg.fullSecs * 2
 				jcfg.idle = true
